@@ -43,11 +43,16 @@ class Progs(list):
     total = 0
 
 
-def enumerate_programs(rep, name, cfg, wd, module='AstConfigs', timeout=1800, sim=None, budget=None):
+def enumerate_programs(rep, name, cfg, wd, module='AstConfigs', timeout=1800, sim=None, budget=None, strata=None):
     """Run the builder machine (exhaustive BFS, or sim=(num, depth): TLC's random simulation of the same machine for
     programs deeper than BFS can reach); return the complete programs TLC emitted - all of them, or (budget) a
     reproducible uniform sample taken while TLC runs (core.Sink), so that memory stays bounded."""
-    sink = core.Sink('<<"PROG", ', budget)
+    # strata = (classify(line) -> class, {class: share of the budget}): a stratified sample, so that rare kinds of program
+    # (say, a loop somewhere below a parallel block) are not left to chance
+    if strata and budget:
+        sink = core.Sink('<<"PROG", ', budget, classify=strata[0], budgets={c: max(1, int(budget * f)) for c, f in strata[1].items()})
+    else:
+        sink = core.Sink('<<"PROG", ', budget)
     if sim:
         res = core.run_tlc(module, cfg, wd, timeout=timeout, workers=8, simulate='num=%d' % sim[0], depth=sim[1],
                            tlc_seed=core.seed() + 1, sink=sink)
@@ -116,6 +121,8 @@ def apply_site(site, circ, ovr, extra=None):
         return lambda: fill_in_let(circ, override_dict=ovr_dict(ovr) if ovr else None)
     if site == 'fill_in_map':
         return lambda: fill_in_map(circ)
+    if site == 'fill_in_let_map':
+        return lambda: fill_in_map(fill_in_let(circ, override_dict=ovr_dict(ovr) if ovr else None))
     if site == 'expand_subcircuits':
         return lambda: expand_subcircuits(circ)
     if site == 'unit_timing':
@@ -169,7 +176,7 @@ def corpus_files():
 
 
 def run_property(prop, tier, configs, sites_fn, owned, nontrivial, rule, module='Conform_Pass', extra_jobs=None,
-                 shard_size=3000, variants=(), extra_stage=None):
+                 shard_size=3000, variants=(), extra_stage=None, strata=None):
     """Generic driver: enumerate (TLC) -> render/parse/apply passes (real code) -> validate (TLC)."""
     impl.guard_repo()
     rep = core.Report(prop, tier)
@@ -178,7 +185,8 @@ def run_property(prop, tier, configs, sites_fn, owned, nontrivial, rule, module=
     jobs = []
     for entry in configs[tier]:
         name, consts, budget = entry[:3]
-        progs = enumerate_programs(rep, name, ast_cfg(*consts), wd, sim=entry[3] if len(entry) > 3 else None, budget=budget)
+        progs = enumerate_programs(rep, name, ast_cfg(*consts), wd, sim=entry[3] if len(entry) > 3 else None, budget=budget,
+                                   strata=strata)
         rep.cov.setdefault('enumerated_programs', {})[name] = progs.total
         if len(progs) > budget:
             progs = rng.sample(progs, budget)
